@@ -356,12 +356,28 @@ func runReplay(ck *Check, tier string, file string) int {
 	}
 	var buf bytes.Buffer
 	x := newCtx(tier, 0, 0, 1, &buf)
-	x.Replay = true
-	if ck.Setup != nil {
-		ck.Setup(x)
+	if h := rf.History; h != nil && h.Workers > 0 {
+		x = newCtx(tier, 0, int(h.UpTo%int64(h.Workers)), h.Workers, &buf)
+		if ck.Setup != nil {
+			ck.Setup(x)
+		}
+		var idx int64 = -1
+		ck.Enumerate(tier, func(c any) {
+			idx++
+			if idx > h.UpTo || int(idx%int64(h.Workers)) != x.Worker {
+				return
+			}
+			x.cur, x.curIdx = c, idx
+			safeExec(ck, x, c)
+		})
+	} else {
+		x.Replay = true
+		if ck.Setup != nil {
+			ck.Setup(x)
+		}
+		x.cur = c
+		safeExec(ck, x, c)
 	}
-	x.cur = c
-	safeExec(ck, x, c)
 	x.out.Flush()
 	classes := []string{}
 	sc := bufio.NewScanner(&buf)
@@ -391,6 +407,15 @@ type ReplayFile struct {
 	Detail   string          `json:"detail"`
 	Case     json.RawMessage `json:"case"`
 	Repo     string          `json:"repo_head,omitempty"`
+	// History, when set, replays not the single case but everything the reporting worker executed
+	// up to and including it (worker = UpTo mod Workers), in the same process: for violations that
+	// depend on process-global state left by earlier cases (a package-level cache, a shared slice).
+	History *ReplayHistory `json:"history,omitempty"`
+}
+
+type ReplayHistory struct {
+	Workers int   `json:"workers"`
+	UpTo    int64 `json:"up_to"`
 }
 
 // Finding is one entry of known_findings.json.
@@ -624,6 +649,28 @@ func Main(ck *Check, tier string, seed int64, worker string, replay string) int 
 			}
 		}
 		fmt.Printf("  class: %s\n  detail: %s\n  reproduced: %d/5 (witnesses in this run: %d)\n", c, firstLines(v.Detail, 12), repro, classCount[c])
+		if repro == 0 {
+			// not a function of the case alone: replay the reporting worker's history in one process, twice
+			hpath := strings.TrimSuffix(path, ".json") + "-history.json"
+			rf.History = &ReplayHistory{Workers: n, UpTo: v.Idx}
+			hb, _ := json.MarshalIndent(rf, "", " ")
+			os.WriteFile(hpath, hb, 0o644)
+			hrepro := 0
+			for k := 0; k < 2; k++ {
+				cmd := exec.Command(os.Args[0], "-p", ck.ID, "-tier", tier, "-replay", hpath)
+				cmd.Run()
+				if cmd.ProcessState != nil && cmd.ProcessState.ExitCode() == 1 {
+					hrepro++
+				}
+			}
+			if hrepro == 2 {
+				fmt.Printf("  the case alone does not show it; the reporting worker's case history up to it does, 2/2 (state kept between cases inside gopki)\n")
+				fmt.Printf("VIOLATION property=%s replay=%s\n", ck.ID, hpath)
+				reported++
+				continue
+			}
+			os.Remove(hpath)
+		}
 		if repro == 0 {
 			fmt.Printf("UNREPRODUCED property=%s class=%s replay=%s\n", ck.ID, c, path)
 			harnessErr = true
